@@ -171,7 +171,7 @@ func libVersion(p *Prog, mod string) string {
 	return ""
 }
 
-// guardedUnrepresentable: the boxing is on the false side of `x == int64(int(x))`.
+// guardedUnrepresentable: the boxing is on the false side of `x == int64(int(x))` (the true side of `!=`).
 func guardedUnrepresentable(mi *ssa.MakeInterface) bool {
 	b := mi.Block()
 	fn := b.Parent()
@@ -181,7 +181,7 @@ func guardedUnrepresentable(mi *ssa.MakeInterface) bool {
 			continue
 		}
 		bo, ok := iff.Cond.(*ssa.BinOp)
-		if !ok || bo.Op.String() != "==" {
+		if !ok || (bo.Op.String() != "==" && bo.Op.String() != "!=") {
 			continue
 		}
 		// one side is Convert(Convert(x,int),int64) of the other
@@ -199,7 +199,10 @@ func guardedUnrepresentable(mi *ssa.MakeInterface) bool {
 		if !(isRound(bo.Y, bo.X) || isRound(bo.X, bo.Y)) {
 			continue
 		}
-		f := gb.Succs[1]
+		f := gb.Succs[1] // the side on which the round trip through int changed the value
+		if bo.Op.String() == "!=" {
+			f = gb.Succs[0]
+		}
 		if f == b || (f.Dominates(b) && len(f.Preds) == 1) {
 			return true
 		}
